@@ -273,22 +273,18 @@ where
         mut n: u64,
     ) -> Result<(), CopyError<Self::Error, W::Error>> {
         let from_buffer = Ord::min(n, self.bits_in_buffer as _);
-        self.buffer = self.buffer.rotate_left(from_buffer as _);
-
-        #[allow(unused_mut)]
-        let mut self_buffer_u64: u64 = self.buffer.cast();
-
-        #[cfg(feature = "checks")]
-        {
-            // Clean up in case checks are enabled
-            if n < 64 {
-                self_buffer_u64 &= (1_u64 << n) - 1;
-            }
-        }
+        // Valid right shift of BB::<WR>::BITS - from_buffer, even when
+        // from_buffer is zero; the result has no bits set at or above
+        // from_buffer
+        let self_buffer_u64: u64 =
+            (self.buffer >> (BB::<WR>::BITS - from_buffer as usize - 1) >> 1_u32).cast();
 
         bit_write
             .write_bits(self_buffer_u64, from_buffer as usize)
             .map_err(CopyError::WriteError)?;
+        // Remove the copied bits, keeping the bits outside of the valid
+        // window zeroed, as refill() ORs new words into the buffer
+        self.buffer <<= from_buffer as usize;
         n -= from_buffer;
 
         if n == 0 {
@@ -320,8 +316,10 @@ where
         bit_write
             .write_bits((new_word >> self.bits_in_buffer).upcast(), n as usize)
             .map_err(CopyError::WriteError)?;
-        self.buffer = UpcastableInto::<BB<WR>>::upcast(new_word)
-            .rotate_right(WR::Word::BITS as u32 - n as u32);
+        // Keep only the bits that have not been copied
+        self.buffer = (UpcastableInto::<BB<WR>>::upcast(new_word)
+            << (BB::<WR>::BITS - self.bits_in_buffer - 1))
+            << 1;
 
         Ok(())
     }
